@@ -17,7 +17,6 @@ package ocifilter
 import (
 	"context"
 	"io"
-	"path"
 	"strings"
 
 	"cuelabs.dev/go/oci/ociregistry"
@@ -195,5 +194,7 @@ func (r *subRegistry) repo(name string) string {
 		// empty name.
 		return ""
 	}
-	return path.Join(r.prefix, name)
+	// Note: no path cleaning here, otherwise names containing "." or ".."
+	// elements could address repositories outside the prefix.
+	return r.prefix + "/" + name
 }
